@@ -591,6 +591,41 @@ def rule_no_unordered_iter(ctx, rep):
         raise AnalysisError("unordered-iteration detector found almost nothing: model regression")
 
 
+FS_PROBES = {"exists", "is_file", "is_dir", "is_symlink", "glob", "rglob", "iterdir", "stat", "lstat", "resolve", "samefile", "listdir", "scandir", "walk", "isfile", "isdir", "realpath"}
+
+
+def rule_lookup_no_fs(ctx, rep):
+    rep.rule(
+        "R-LOOKUP-NO-FS",
+        "which findings a file gets is decided from the result set and the file's own path alone: the lookup methods of ResultSet and its "
+        "subclasses (results_for_rule_and_file, files_for_rule, ...) never probe the file system (exists / is_file / glob / resolve ...) -- a "
+        "fallback that asks whether *another* path exists makes the outcome for one file depend on which sibling files are present",
+        min_instances=3,
+    )
+    n = 0
+    fam = {"codemodder.result.ResultSet"} | ctx.prog.all_subclasses("codemodder.result.ResultSet")
+    for cq in sorted(fam):
+        c = ctx.prog.classes.get(cq)
+        if c is None:
+            continue
+        for m in c.methods.values():
+            if m.absorbed or not (m.name.startswith(("results_for", "files_for", "all_results", "__getitem__")) or "for_rule" in m.name):
+                continue
+            n += 1
+            probes = []
+            for q in sorted(ctx.cg.reachable([m.qname])):
+                f = ctx.prog.functions[q]
+                if not (f.module.name.startswith("codemodder.result") or f.cls is not None and f.cls.qname in fam):
+                    continue
+                for x in walk_no_nested(f.node):
+                    if isinstance(x, ast.Call) and isinstance(x.func, ast.Attribute) and x.func.attr in FS_PROBES:
+                        probes.append((f, x))
+            rep.check("R-LOOKUP-NO-FS", m.qname, probes[0][0].loc(probes[0][1]) if probes else m.loc(), not probes, "no-file-system-probe",
+                      f"`{unparse(probes[0][1])[:60]}` in {probes[0][0].name}: the findings attached to a file depend on what else is on disk" if probes else "")
+    if n < 3:
+        raise AnalysisError(f"only {n} lookup methods found on the ResultSet family")
+
+
 def check(ctx, rep):
     rep.explanation = (
         "Pool construction, merge source and worker reachability are decided on the call graph and def-use roots; every "
@@ -601,6 +636,7 @@ def check(ctx, rep):
     rule_ordered_merge(ctx, rep)
     rule_worker_isolation(ctx, rep)
     rule_no_unordered_iter(ctx, rep)
+    rule_lookup_no_fs(ctx, rep)
     from .c10 import rule_accumulate_all
 
     rule_accumulate_all(ctx, rep)
